@@ -153,10 +153,11 @@ class SPARQLFunction(SHACLFunction):
         rvars = len(results.vars)
         rbindings = len(results.bindings)
         if rvars < 1 or rbindings < 1:
-            return []
+            # no solution: the function has no result
+            return None
         rvar = results.vars[0]
         result = results.bindings[0]
-        return result[rvar]
+        return result.get(rvar, None)
 
     def execute_ask(self, g: 'GraphLike', init_bindings: Dict):
         a = self._qh.apply_prefixes(self.ask)
@@ -183,8 +184,11 @@ class SPARQLFunction(SHACLFunction):
             new_binds[bind_name] = var_val
         if self.ask:
             return self.execute_ask(g, new_binds)
-        else:
-            return self.execute_select(g, new_binds)
+        result = self.execute_select(g, new_binds)
+        if result is None:
+            # in SPARQL a function call without a result is an error (the expression is unbound)
+            raise SPARQLError("SPARQLFunction returned no result.")
+        return result
 
     def apply(self, g):
         super(SPARQLFunction, self).apply(g)
